@@ -68,3 +68,76 @@ Print Assumptions C16_canonical.
 Print Assumptions C16_monotone.
 Print Assumptions C16_stl.
 Print Assumptions C16_float_fraction.
+
+(* ---- STL writers as the code computes them (audit follow-up; Model/DurFloat.v, Proofs/DurFloatProofs.v) ----
+   stl.go formatDurationSTL / formatDurationSTLBytes take the hour, minute and second fields through float64:
+   time.Duration.Hours() / Minutes() / Seconds() (float64(d / unit) + float64(d % unit) / unit), math.Floor, and the
+   comparison "< 10" for the leading zero; the frame field is integer arithmetic since the fix "STL frame numbers
+   survive a read/write pass at 30 fps" (int(d.Nanoseconds()) * framerate / 1e9 with an int constant), i.e. the formula
+   of Model/Dur.v, for every frame rate.  [format_stl_float] / [format_stl_bytes_float] are that computation in
+   binary64 (Flocq, round to nearest even, no fused operation); they equal the integer model for every instant below
+   1024 hours - in particular below 24 h - and EVERY frame rate (the frame rate does not enter the float part).
+   Checked on the real functions through VerifFormatDurationSTL / VerifFormatDurationSTLBytes: 3.1 million instants (every
+   multiple of a second, a minute and an hour up to 1024 units, +-3 ns, and random ones) at 25, 30, 24, 1 and 99 fps,
+   no difference. *)
+From Astisub Require Import Model.DurFloat Proofs.DurFloatProofs.
+Theorem C16_stl_float_path : forall t fps, 0 <= t < day_ns ->
+  format_stl_float t fps = format_stl t fps /\ format_stl_bytes_float t fps = format_stl_bytes t fps /\
+  stl_fields_float t fps = stl_fields t fps.
+Proof.
+  intros t fps Ht. pose proof (day_below_1024h t Ht) as H.
+  split; [exact (format_stl_float_eq t fps H) | split; [exact (format_stl_bytes_float_eq t fps H) | exact (stl_fields_float_eq t fps H)]].
+Qed.
+Theorem C16_stl_float_path_1024h : forall t fps, 0 <= t < 1024 * hour_ns ->
+  format_stl_float t fps = format_stl t fps /\ format_stl_bytes_float t fps = format_stl_bytes t fps.
+Proof. intros t fps H. split; [exact (format_stl_float_eq t fps H) | exact (format_stl_bytes_float_eq t fps H)]. Qed.
+(* the mechanism: d.Hours() (Minutes, Seconds) floors to the integer quotient and compares with 10 as the quotient does *)
+Theorem C16_duration_float_floor : forall t unit, 0 <= t -> 0 < unit <= 4398046511104 -> t / unit < 1024 ->
+  floor_Z (dur_float t unit) = Z.quot t unit /\ two_float (dur_float t unit) = two (Z.quot t unit).
+Proof. exact dur_float_floor. Qed.
+
+(* the 4-byte cue-boundary form (TTI time code in / out) on an ARBITRARY instant below 24 h (C05_timecode_* start from a
+   timecode): the frame written is the floor of the frame count; read back, it is that frame's instant to within one
+   nanosecond, at most 1 ns after t; writing it again gives the same four bytes; later instants never come back
+   earlier.  [stl_back t fps] = parse_stl_bytes (format_stl_bytes t fps) fps. *)
+Theorem C16_stl_bytes : forall t fps, 0 <= t < day_ns -> 0 < fps < 100 ->
+  let F := stl_frame t fps in
+  let exact_times_fps := (t - t mod second_ns) * fps + F * second_ns in
+  0 <= F < fps /\ F * second_ns <= (t mod second_ns) * fps < (F + 1) * second_ns /\
+  exact_times_fps <= stl_back t fps * fps < exact_times_fps + fps /\
+  stl_back t fps <= t + 1 /\ 0 <= stl_back t fps < day_ns /\
+  format_stl_bytes (stl_back t fps) fps = format_stl_bytes t fps.
+Proof. exact stl_bytes_roundtrip. Qed.
+Theorem C16_stl_bytes_monotone : forall t t' fps, 0 <= t <= t' -> t' < day_ns -> 0 < fps < 100 ->
+  stl_back t fps <= stl_back t' fps.
+Proof. exact stl_bytes_monotone. Qed.
+Theorem C16_stl_bytes_shape : forall t fps, 0 <= t < day_ns -> 0 < fps < 100 ->
+  format_stl_bytes t fps = map (fun v => Z.to_N (v mod 256)) [f_h t; f_m t; f_s t; stl_frame t fps] /\
+  stl_back t fps = (t - t mod second_ns) + frames_ns (stl_frame t fps) fps.
+Proof. intros t fps Ht Hf. exact (proj2 (stl_back_value t fps Ht Hf)). Qed.
+Example C16_stl_bytes_example :
+  format_stl_bytes 3723456789012 25 = [1; 2; 3; 11]%N /\ stl_back 3723456789012 25 = 3723440000000 /\
+  format_stl_bytes 3723456789012 30 = [1; 2; 3; 13]%N /\ stl_back 3723456789012 30 = 3723433333334 /\
+  format_stl_bytes_float 3723456789012 30 = [1; 2; 3; 13]%N /\
+  format_stl_float 86399999999999 25 = [50; 51; 53; 57; 53; 57; 50; 52]%N /\ format_stl 86399999999999 25 = [50; 51; 53; 57; 53; 57; 50; 52]%N.
+Proof. exact stl_bytes_examples. Qed.
+
+Print Assumptions C16_stl_float_path.
+Print Assumptions C16_stl_float_path_1024h.
+Print Assumptions C16_duration_float_floor.
+Print Assumptions C16_stl_bytes.
+Print Assumptions C16_stl_bytes_monotone.
+Print Assumptions C16_stl_bytes_shape.
+(* EBU STL, the float path (audit item): stl.go computes the hour, minute and second fields of a timecode as
+   int(math.Floor(d.Hours())) etc., where time.Duration.Hours() is float64(d / Hour) + float64(d % Hour) / 3.6e12 (one rounded
+   division, one rounded addition), and tests d.Hours() < 10 for the leading zero; only the frame field is integer
+   arithmetic.  Model/StlFloat.v transcribes that path with Kit/Float64.v (Flocq binary64); on the whole range a timecode
+   can hold (0 <= t < 256 h) it equals the integer model Dur.stl_fields used everywhere else, so every STL theorem stated
+   on stl_fields / format_stl / format_stl_bytes is a theorem about the float computation. *)
+From Astisub Require Import Model.StlFloat Proofs.StlFloatProofs.
+Theorem C16_stl_float_fields : forall t fps, stl_range t -> stl_fields_float t fps = stl_fields t fps.
+Proof. exact stl_fields_float_correct. Qed.
+Theorem C16_stl_float_leading_zero : forall c t, stl_unit c -> stl_range t -> lt10_float c t = (Z.quot t c <? 10).
+Proof. exact lt10_float_correct. Qed.
+Print Assumptions C16_stl_float_fields.
+Print Assumptions C16_stl_float_leading_zero.
